@@ -14,9 +14,32 @@ const (
 	defaultMinimumEdgeLength = 0.1
 )
 
+// fits31 reports whether |v| < 2^31: products of two such values (and sums of two such
+// products) cannot overflow int64.
+func fits31(v int64) bool {
+	return v > -(1<<31) && v < (1<<31)
+}
+
+// crossOf returns ax*by - ay*bx: exactly (in int64) when the operands are small enough,
+// otherwise in float64 (the int64 products would overflow).
+func crossOf(ax, ay, bx, by int64) float64 {
+	if fits31(ax) && fits31(ay) && fits31(bx) && fits31(by) {
+		return float64(ax*by - ay*bx)
+	}
+	return float64(ax)*float64(by) - float64(ay)*float64(bx)
+}
+
+// dotOf returns ax*bx + ay*by with the same overflow handling as crossOf.
+func dotOf(ax, ay, bx, by int64) float64 {
+	if fits31(ax) && fits31(ay) && fits31(bx) && fits31(by) {
+		return float64(ax*bx + ay*by)
+	}
+	return float64(ax)*float64(bx) + float64(ay)*float64(by)
+}
+
 // CrossProduct for three Point64 (pt1->pt2 x pt2->pt3)
 func CrossProduct(pt1, pt2, pt3 Point64) float64 {
-	return float64((pt2.X-pt1.X)*(pt3.Y-pt2.Y) - (pt2.Y-pt1.Y)*(pt3.X-pt2.X))
+	return crossOf(pt2.X-pt1.X, pt2.Y-pt1.Y, pt3.X-pt2.X, pt3.Y-pt2.Y)
 }
 
 func checkPrecision(precision int) {
@@ -87,7 +110,7 @@ func isCollinear(pt1, sharedPt, pt2 Point64) bool {
 }
 
 func dotProduct64(pt1, pt2, pt3 Point64) float64 {
-	return float64((pt2.X-pt1.X)*(pt3.X-pt2.X) + (pt2.Y-pt1.Y)*(pt3.Y-pt2.Y))
+	return dotOf(pt2.X-pt1.X, pt2.Y-pt1.Y, pt3.X-pt2.X, pt3.Y-pt2.Y)
 }
 
 func crossProductD(vec1, vec2 PointD) float64 {
